@@ -19,14 +19,31 @@ Ltac facts H :=
   enum H; cbn; unfold od_static, od_pub; cbn;
   repeat split; intros; try reflexivity; try discriminate; try congruence; try tauto.
 
+(* the sub-stream that should be the current one: the attached publisher's, else the ready static source's,
+   else the offline one of an alwaysAvailable stream; none without stream *)
+Definition expected_sub (s : pstate) : sub :=
+  match s_stream s with
+  | None => SNone
+  | Some _ =>
+      match s_source s with
+      | Some p => SPub p
+      | None => if s_instReady s then SStatic else if c_aa (s_conf s) then SOffline else SNone
+      end
+  end.
+
 Lemma live_facts fx s : inv_b fx s = true -> s_closed s = false ->
   (c_static (s_conf s) = true -> s_source s = None) /\
-  (c_static (s_conf s) = false -> (s_source s = None <-> s_stream s = None)) /\
+  (c_static (s_conf s) = false -> c_aa (s_conf s) = false -> (s_source s = None <-> s_stream s = None)) /\
   (s_stream s = None -> s_readers s = []) /\
-  (s_stream s <> None -> s_hUnavail s = true /\ s_hOffline s = true) /\
-  (s_stream s = None -> s_hOffline s = false).
+  (s_stream s <> None -> s_hUnavail s = true) /\
+  (s_stream s = None -> s_hOffline s = false) /\
+  (c_aa (s_conf s) = true -> s_stream s <> None) /\
+  (c_aa (s_conf s) = false -> s_stream s <> None -> s_hOffline s = true) /\
+  (c_aa (s_conf s) = true -> (s_hOffline s = true <-> (s_source s <> None \/ s_instReady s = true))) /\
+  s_sub s = expected_sub s.
 Proof.
   intros H Hc. start s. cbn in Hc. subst. facts H.
+  all: try (left; discriminate); try (right; reflexivity); try (intuition congruence).
 Qed.
 
 Lemma held_nil_iff s : held s = [] <-> s_dhold s = [] /\ s_rhold s = [].
@@ -45,11 +62,12 @@ Proof.
 Qed.
 
 Lemma closed_facts fx s : inv_b fx s = true -> s_closed s = true ->
-  held s = [] /\ s_stream s = None /\ s_source s = None /\ s_readers s = [] /\ s_hOffline s = false /\ s_hUnDemand s = false.
+  held s = [] /\ s_stream s = None /\ s_source s = None /\ s_readers s = [] /\ s_hOffline s = false /\ s_hUnDemand s = false /\
+  s_sub s = SNone.
 Proof.
   intros H Hc. start s. cbn in Hc. subst. unfold inv_b, closed_b, no_holds_b in H. cbn in H.
   split_hyps. prune.
-  destruct str, src, hof, hud; cbn in *; try discriminate. repeat split; reflexivity.
+  destruct str, src, hof, hud, sb; cbn in *; try discriminate. repeat split; reflexivity.
 Qed.
 
 (* ---- C16 ------------------------------------------------------------------------------------------ *)
@@ -57,19 +75,32 @@ Lemma c16_one_source fx cf ops :
   conf_ok cf = true ->
   let s := final (step_gen fx) (init_state cf) ops in
   (c_static cf = true -> s_source s = None) /\
-  (c_static cf = false -> (s_source s = None <-> s_stream s = None)).
+  (c_static cf = false -> c_aa cf = false -> (s_source s = None <-> s_stream s = None)) /\
+  (c_aa cf = true -> s_closed s = false -> s_stream s <> None).
 Proof.
   intros Hc s. pose proof (inv_run fx cf ops Hc) as [Hb _]. fold s in Hb.
-  assert (Hcf : s_conf s = cf) by (unfold s; rewrite conf_run; reflexivity).
+  assert (Hcf : s_conf s = cf).
+  { unfold s. rewrite conf_run. apply init_fields. }
   destruct (s_closed s) eqn:Ecl.
-  - destruct (closed_facts _ _ Hb Ecl) as (_ & A & B & _). rewrite A, B. split; intros; tauto.
-  - destruct (live_facts _ _ Hb Ecl) as (A & B & _). rewrite Hcf in *. split; assumption.
+  - destruct (closed_facts _ _ Hb Ecl) as (_ & A & B & _). rewrite A, B. split; [tauto|]. split; [tauto|]. intros _ Hx. discriminate Hx.
+  - destruct (live_facts _ _ Hb Ecl) as (A & B & _ & _ & _ & C & _). rewrite Hcf in *. split; [exact A|]. split; [exact B|]. intros Ha _. exact (C Ha).
 Qed.
 
-Lemma c16_reject_when_busy fx s q p old :
+(* the current sub-stream after any history *)
+Lemma c16_current_substream fx cf ops :
+  conf_ok cf = true ->
+  let s := final (step_gen fx) (init_state cf) ops in s_sub s = expected_sub s.
+Proof.
+  intros Hc s. pose proof (inv_run fx cf ops Hc) as [Hb _]. fold s in Hb.
+  destruct (s_closed s) eqn:Ecl.
+  - destruct (closed_facts _ _ Hb Ecl) as (_ & A & _ & _ & _ & _ & B). unfold expected_sub. rewrite A, B. reflexivity.
+  - apply (live_facts _ _ Hb Ecl).
+Qed.
+
+Lemma c16_reject_when_busy fx s q p ok old :
   s_closed s = false -> c_static (s_conf s) = false -> c_override (s_conf s) = false ->
   s_source s = Some old ->
-  step_gen fx s (AddPublisher q p) = (s, [EAnswer q (AErr E_BUSY)]).
+  step_gen fx s (AddPublisher q p ok) = (s, [EAnswer q (AErr E_BUSY)]).
 Proof.
   intros Hc Hs Ho Hsrc. unfold step_gen, do_add_publisher. rewrite Hc, Hs, Hsrc, Ho. reflexivity.
 Qed.
@@ -80,7 +111,7 @@ Lemma c18_bounded fx cf ops :
   Z.of_nat (length (s_readers (final (step_gen fx) (init_state cf) ops))) <= Z.max 0 (c_maxr cf).
 Proof.
   intros Hc Hm. pose proof (inv_run fx cf ops Hc) as [_ [_ Hl]].
-  rewrite conf_run in Hl. cbn in Hl. apply Hl. exact Hm.
+  rewrite conf_run in Hl. destruct (init_fields cf) as [_ E]. rewrite E in Hl. apply Hl. exact Hm.
 Qed.
 
 Lemma c18_nodup fx cf ops :
@@ -118,9 +149,9 @@ Proof.
 Qed.
 
 (* the finding, on the code as it was before the repair *)
-Definition c19_witness_conf : pconf := mkConf false false true 0 true true true true true true.
+Definition c19_witness_conf : pconf := mkConf false false true 0 true true true true true true false.
 Definition c19_witness_ops : list pop :=
-  [AddReader 1 1; AddPublisher 2 1; RemovePublisher 1; RemoveReader 1; AddReader 3 2; TimerFire TPubClose].
+  [AddReader 1 1; AddPublisher 2 1 true; RemovePublisher 1; RemoveReader 1; AddReader 3 2; TimerFire TPubClose].
 
 Lemma c19_held_has_deadline_refuted :
   exists cf ops,
